@@ -44,6 +44,9 @@ def cases(tier, seed):
     nf = 12 if tier == "quick" else 2000
     for i in range(nf):
         out.append({"name": "cos.fuzz/%d" % i, "kind": "fuzz", "n": 25 if tier == "quick" else 60, "idx": i})
+    # the very first use of a new executor races with its shutdown (state created on first use)
+    for i in range(16 if tier == "quick" else 400):
+        out.append({"name": "cos.fuzz-fresh/%d" % i, "kind": "fuzz", "n": 150, "idx": i, "fresh": True})
     return out
 
 
@@ -276,15 +279,16 @@ def run_fuzz(case, res):
     scn = CosScenario({"earlier": "", "resub": False, "dir": "", "name": "cos.fuzz/x"})
     for it in range(case["n"]):
         begin("rt")
-        earlier = "".join(rng.choice("prd") for _ in range(rng.randint(0, 4)))
+        fresh = case.get("fresh")
+        earlier = "" if fresh else "".join(rng.choice("prd") for _ in range(rng.randint(0, 4)))
         scn.case = {"earlier": earlier, "resub": rng.random() < 0.4, "dir": "", "name": "cos.fuzz/x"}
         ctx = scn.setup()
         try:
-            TR.set_fuzz(rng.choice([0.05, 0.15, 0.3]), rng.random())
-            nsub = rng.randint(1, 3)
+            TR.set_fuzz(rng.choice([0.3, 0.5, 0.7] if fresh else [0.05, 0.15, 0.3]), rng.random())
+            nsub = rng.randint(1, 2 if fresh else 3)
             actors = []
             for k in range(nsub):
-                def submitter(k=k, m=rng.randint(1, 4)):
+                def submitter(k=k, m=1 if fresh else rng.randint(1, 4)):
                     for j in range(m):
                         scn.do_submit(ctx, "s%d.%d" % (k, j))
                 actors.append(ctx.actor("S%d" % k, submitter))
